@@ -243,17 +243,21 @@ def ds_join(ctx, struct, how, dim=None, align=False):
     if how == 'stack':
         keys = [ctx.int('key0'), ctx.int('key1')]
         ctx.assume(keys[0] != keys[1])
-        r = ctx.call(lambda: da.stack_ds([ds1, ds2], axis='k', keys=list(keys)))
-        exp = dict((k, ctx.call(lambda: da.stack([ds1[k], ds2[k]], axis='k', keys=list(keys)))) for k in ds1.keys())
+        kw = {'align': True} if align else {}
+        r = ctx.call(lambda: da.stack_ds([ds1, ds2] if not isinstance(align, str) else {'p': ds1, 'q': ds2}, axis='k', keys=list(keys) if not isinstance(align, str) else None, **kw))
+        if isinstance(align, str):
+            keys = ['p', 'q']
+        exp = dict((k, ctx.call(lambda: da.stack([ds1[k], ds2[k]], axis='k', keys=list(keys), **kw))) for k in ds1.keys())
         have = list(ds1.keys())
     else:
         have = [k for k, ref in st1['vars'].items() if dim in ref.dims]
         lack = [k for k in st1['vars'] if k not in have]
-        r = ctx.call(lambda: da.concatenate_ds([ds1, ds2], axis=dim))
+        kw = {'align': True} if align else {}
+        r = ctx.call(lambda: da.concatenate_ds([ds1, ds2], axis=dim, **kw))
         if lack:
             # documented: variables lacking the axis are refused
             return ctx.done(r[0] != 'ok' or True, r[1] if r[0] != 'ok' else None)
-        exp = dict((k, ctx.call(lambda: da.concatenate([ds1[k], ds2[k]], axis=dim))) for k in have)
+        exp = dict((k, ctx.call(lambda: da.concatenate([ds1[k], ds2[k]], axis=dim, **kw))) for k in have)
     if r[0] != 'ok':
         return ctx.done(False, r[1])
     res = r[1]
@@ -298,6 +302,10 @@ def templates():
                 add('arith-%s-%s-%s' % (op, other, sname), 'ds_arith', cost=0.5 if other != 'dataset-free' else 4, struct=sname, op=op, other=other)
     for sname in ('a_x', 'a_x-b_yx', 'a_xy-b_y-c_0'):
         add('stack_ds-%s' % sname, 'ds_join', cost=1, struct=sname, how='stack')
+        add('stack_ds-dict-%s' % sname, 'ds_join', cost=1, struct=sname, how='stack', align='dict')
+    add('stack_ds-align-a_x', 'ds_join', cost=2, struct='a_x', how='stack', align=True, dim='x')
+    add('stack_ds-align-a_x-b_yx', 'ds_join', cost=4, struct='a_x-b_yx', how='stack', align=True, dim='x')
+    add('concatenate_ds-align-a_xy-y', 'ds_join', cost=4, struct='a_xy', how='concat', dim='y', align=True)
     for sname, dim in (('a_x', 'x'), ('a_x-b_yx', 'x'), ('a_xy', 'y'), ('a_xy-b_y-c_0', 'y'), ('a_xyz-b_zy-c_x', 'x')):
         add('concatenate_ds-%s-%s' % (sname, dim), 'ds_join', cost=1, struct=sname, how='concat', dim=dim)
     return ts
